@@ -79,6 +79,11 @@ THEOREMS = [
     "C19_interface_delete_cleans_iff",
     "C19_pickle_hooks_truthful",
     "C19_default_hook_not_truthful",
+    "C19_failed_save_interrupted_keeps",
+    "C19_restricted_load_agrees",
+    "C19_restricted_flag_true_is_default",
+    "C19_refused_load_keeps_children",
+    "C19_late_class_check_orphans",
 ]
 RULE = (
     "seeded histories over {save ok | save cloudpickle-only | save unserialisable | save interrupted after k "
@@ -132,18 +137,23 @@ GRAPHS = ("wf", "fn", "fac", "old")
 FNAMES = ("default", "explicit")
 # how the class of the loading node is related to the class of the saved node (which relations exist per graph kind)
 RELS = {
-    "wf": ("same", "samename", "diffname", "sub"),
-    "fn": ("same", "samename", "diffname", "sub", "super"),
-    "fac": ("same", "samename", "diffname", "sub", "super"),
+    "wf": ("same", "samename", "diffname", "sub", "diffcomp"),
+    "fn": ("same", "samename", "diffname", "sub", "super", "diffcomp"),
+    "fac": ("same", "samename", "diffname", "sub", "super", "diffcomp"),
     # the graph's class is a class object that is NO LONGER the one bound in its module (the module was executed again
     # since): only cloudpickle (by value) can save it; `samename` is the class now bound under that name
-    "old": ("same", "samename", "diffname", "sub", "super"),
+    "old": ("same", "samename", "diffname", "sub", "super", "diffcomp"),
 }
 # the storage back end: the library's default ("pickle"), or an instance of a user's subclass handed to
 # save / load / delete_storage / has_saved_content / autoload= (`nohook`: keeps the interface's `_has_leftovers = False`)
 BACKENDS = ("default", "custom", "nohook")
 BY_VALUE = ("fac", "old")  # graph kinds whose class only cloudpickle can serialise: every `ok` save lands as .cpckl
 REL_ID = {"same": 0, "samename": 1, "diffname": 2, "sub": 3, "super": 5}  # `Cls.ofRel` of the model
+# `diffcomp`: an unrelated class (the model's `diffname`) whose loading node is a COMPOSITE with connected children --
+# a Workflow for the function-node graphs, a Macro for the Workflow graph.  A foreign op may carry the placement "in":
+# the loading node then sits INSIDE a parent workflow, connected to two siblings (an in-place load).
+REL_ID["diffcomp"] = REL_ID["diffname"]
+PLACEMENTS = ("alone", "in")
 CONTENTS = ("ok", "pf", "bf")
 BYTESEL = ("one", "mid", "last")
 MAXK = 9
@@ -186,6 +196,13 @@ def _rand_history(rng, length, clean, kind="wf"):
             v += 1
             c = rng.choice(["ok", "ok", "ok", "pf", "pf", "bf"])
             ops.append(["crash", c, v, rng.randint(0, MAXK), rng.choice(BYTESEL)])
+        elif r < 0.73:
+            v += 1
+            if rng.random() < 0.5:
+                ops.append(["savenf", rng.choice(CONTENTS), v])
+                have_good = have_good or (ops[-1][1] == "ok" and kind not in BY_VALUE)
+            else:
+                ops.append(["crashnf", rng.choice(CONTENTS), v, rng.randint(0, 6), rng.choice(BYTESEL)])
         elif r < 0.77:
             ops.append(["load"])
         elif r < 0.84:
@@ -194,7 +211,8 @@ def _rand_history(rng, length, clean, kind="wf"):
         elif r < 0.90:
             ops.append(["reopen"])
         else:
-            ops.append(["foreign", rng.choice(RELS[kind])])
+            rel = rng.choice(RELS[kind])
+            ops.append(["foreign", rel, "in"] if (rng.random() < 0.4 and _can_place(kind, rel, "in")) else ["foreign", rel])
     return ops
 
 
@@ -205,7 +223,14 @@ def _alphabet(kind="wf", maxk=None):
     al += [["crash", c, k] for c in CONTENTS for k in range(maxk.get(c, MAXK) + 1)]
     al += [["load"], ["delete"], ["reopen"]]
     al += [["foreign", rel] for rel in RELS[kind]]
+    al += [["foreign", rel, "in"] for rel in RELS[kind] if _can_place(kind, rel, "in")]
     return al
+
+
+def _nf_alphabet(maxk=None):
+    """saves asked for with the per-call flag cloudpickle_fallback=False, complete or cut at every call"""
+    maxk = maxk or {}
+    return [["savenf", c] for c in CONTENTS] + [["crashnf", c, k] for c in CONTENTS for k in range(maxk.get(c, MAXK) + 1)]
 
 
 def _tree_alphabet(children=CHILDREN):
@@ -258,12 +283,12 @@ def _number(ops):
         elif op[0] in ("ckptcrash", "failcrash"):
             v += 1
             out.append([op[0], op[1], v, op[2], BYTESEL[(v + op[2]) % 3]])
-        elif op[0] == "save":
+        elif op[0] in ("save", "savenf"):
             v += 1
-            out.append(["save", op[1], v])
-        elif op[0] == "crash":
+            out.append([op[0], op[1], v])
+        elif op[0] in ("crash", "crashnf"):
             v += 1
-            out.append(["crash", op[1], v, op[2], BYTESEL[(v + op[2]) % 3]])
+            out.append([op[0], op[1], v, op[2], BYTESEL[(v + op[2]) % 3]])
         else:
             out.append(list(op))
     return out
@@ -292,6 +317,22 @@ def gen_cases(rng, tier):
             yield _case(g, f, _number([a]))
             for b in al:
                 yield _case(g, f, _number([a, b]))
+    # the per-call flag cloudpickle_fallback=False on save (the back end's default stays True): every such save, complete
+    # or cut at every call, alone, after each kind of good save (.pckl / .cpckl / both suffixes), followed by each probe
+    nf = _nf_alphabet()
+    nf_setups = [["save", "ok"], ["save", "pf"], ["crash", "pf", 7]]
+    nf_closers = [["load"], ["reopen"], ["delete"], ["save", "ok"], ["savenf", "ok"]]
+    for g in (("wf", "fn", "fac") if tier == "quick" else GRAPHS):
+        for f in (("default",) if tier == "quick" else FNAMES):
+            for a in nf:
+                yield _case(g, f, _number([a]))
+                for b in nf_setups:
+                    yield _case(g, f, _number([b, a]))
+                    if tier != "quick":
+                        for c in nf_closers:
+                            yield _case(g, f, _number([b, a, c]))
+                for c in nf_closers:
+                    yield _case(g, f, _number([a, c]))
     # nested nodes, checkpoints, recovery files (Workflow graph, default location): every op alone, every op after each
     # of a few set-ups (good saves in the different stores), every op followed by each delete / load -- thorough: all pairs
     tree_a, tree_all, main_al = _tree_alphabet(("a",)), _tree_alphabet(), _alphabet("wf")
@@ -406,6 +447,16 @@ def corpus():
     # C08-2: a checkpoint that needs cloudpickle after one that did not (the stale .pckl must go)
     yield _case("wf", "default", [["ckpt", "ok", 1], ["ckpt", "pf", 2], ["reopen"], ["fail", "ok", 3], ["fail", "pf", 4],
                                   ["at", "rec", "load"]])
+    # C19-5: the last good save is a .cpckl; a save with the per-call flag cloudpickle_fallback=False fails (content pickle
+    # cannot do / node class not importable) or is interrupted -- the .cpckl must survive
+    for g in ("wf", "fac", "old"):
+        yield _case(g, "default", [["save", "pf", 1], ["savenf", "pf", 2], ["reopen"], ["crashnf", "ok", 3, 3, "mid"], ["load"]])
+        yield _case(g, "explicit", [["save", "pf", 1], ["savenf", "bf", 2], ["load"], ["savenf", "ok", 3], ["load"]])
+    # C19-6: a refused load into a composite with connected children / into a node sitting in a parent
+    for g in GRAPHS:
+        rels = [["foreign", r] for r in RELS[g] if r != "same"]
+        rels += [["foreign", r, "in"] for r in RELS[g] if r != "same" and _can_place(g, r, "in")]
+        yield _case(g, "default", [["save", "ok", 1], *rels, ["foreign", "same"], ["load"]], True)
     # every cut of each kind of save on top of a good save, all graph kinds
     for c in CONTENTS:
         for k in range(0, MAXK + 1):
@@ -658,7 +709,7 @@ def _graph_class(kind):
     return {"wf": Workflow, "fn": nc.G, "fac": nc.factory_classes()[0]}[kind]
 
 
-def _foreign_class(kind, rel):
+def _foreign_class(kind, rel, placement="alone"):
     """a real class that stands in relation `rel` to the class of the saved graph"""
     from . import nodes_c19 as nc
 
@@ -667,6 +718,10 @@ def _foreign_class(kind, rel):
         return g
     if rel == "diffname":
         return nc.H
+    if rel == "diffcomp":
+        from pyiron_workflow import Workflow
+
+        return nc.M if (kind == "wf" or placement == "in") else Workflow
     if kind == "wf":
         return {"samename": nc.redefined_workflow, "sub": lambda: nc.WfSub}[rel]()
     if kind == "fn":
@@ -701,18 +756,46 @@ def _mk_graph(kind, autoload=False, backend=None):
     return cls(label="g", autoload=backend or "pickle") if autoload else cls(label="g")
 
 
-def _mk_foreign(kind, rel):
-    """another node object (label `zz`, version FOREIGN_VER) whose class is related to the graph's class by `rel`"""
+def _can_place(kind, rel, placement):
+    """a Workflow is always a root: only function nodes and macros can sit inside a parent"""
+    from pyiron_workflow import Workflow
+
+    return placement == "alone" or not issubclass(_foreign_class(kind, rel, placement), Workflow) \
+        and _foreign_class(kind, rel, placement).__name__ != "Workflow"
+
+
+def _mk_foreign(kind, rel, placement="alone"):
+    """another node object (label `zz`, version FOREIGN_VER) whose class is related to the graph's class by `rel`;
+    a composite gets two CONNECTED children; with placement "in" the node sits in a parent workflow `pp` between two
+    siblings it is connected to.  Returns (node, parent or None)."""
+    from pyiron_workflow import Macro, Workflow
     from pyiron_workflow.nodes.composite import Composite
 
     from . import nodes_c19 as nc
 
-    cls = _foreign_class(kind, rel)
-    if issubclass(cls, Composite):
-        w = cls("zz", autoload=None)
-        w.add_child(nc.H(label="n", a=FOREIGN_VER))
-        return w
-    return cls(label="zz", a=FOREIGN_VER)
+    cls = _foreign_class(kind, rel, placement)
+    parent = None
+    if issubclass(cls, Macro):
+        f = cls(label="zz", a=FOREIGN_VER)
+    elif issubclass(cls, Composite):
+        f = cls("zz", autoload=None)
+        f.add_child(nc.H(label="n", a=FOREIGN_VER))
+        f.add_child(nc.H(label="m"))
+        f.m.inputs.a = f.n.outputs.o
+        f.m.signals.input.run = f.n.signals.output.ran
+    else:
+        f = cls(label="zz", a=FOREIGN_VER)
+    if placement == "in":
+        parent = Workflow("pp", autoload=None)
+        parent.add_child(nc.H(label="src", a=1))
+        parent.add_child(f)
+        parent.add_child(nc.H(label="dst"))
+        if not isinstance(f, Composite):
+            f.inputs.b = parent.src.outputs.o
+        parent.dst.inputs.a = f.outputs[f.outputs.labels[0]]
+        parent.dst.signals.input.run = f.signals.output.ran
+        f.signals.input.run = parent.src.signals.output.ran
+    return f, parent
 
 
 def _is_graph(node):
@@ -768,19 +851,51 @@ def _ver(node):
     return a if isinstance(a, int) and not isinstance(a, bool) else 0
 
 
-def _summary(node):
+def _summary(node, with_parent=True):
+    """everything a refused load must leave as it was: class, label, status, IO values, WHO the children are (object
+    identity), that they are still the node's children (parent pointer, lexical path), every connection and value
+    link of the node and of its children, and the same for the parent the node sits in"""
+
     def io(n):
         return ([(k, repr(c.value)) for k, c in n.inputs.items()], [(k, repr(c.value)) for k, c in n.outputs.items()])
 
+    def wiring(n):
+        out = []
+        for panel in (n.inputs, n.outputs, n.signals.input, n.signals.output):
+            for ch in panel:
+                out.append((type(ch).__name__, ch.label, [(id(p.owner), p.owner.label, p.label) for p in ch.connections],
+                            None if getattr(ch, "value_receiver", None) is None
+                            else (id(ch.value_receiver.owner), ch.value_receiver.label)))
+        return out
+
+    def one(n):
+        return [id(type(n)), type(n).__qualname__, n.label, n.running, n.failed, id(n.parent) if n.parent is not None else None,
+                n.lexical_path, io(n), wiring(n)]
+
     try:
-        s = [id(type(node)), type(node).__qualname__, node.label, node.running, node.failed]
+        s = one(node)
         if _is_graph(node):
-            s.append([(lab, id(type(ch)), type(ch).__qualname__, io(ch)) for lab, ch in node.children.items()])
-        else:
-            s.append(io(node))
+            s.append([(lab, id(ch), ch.parent is node, one(ch)) for lab, ch in node.children.items()])
+        if with_parent and node.parent is not None:
+            par = node.parent
+            s.append(("parent", one(par), [(lab, id(ch), ch.parent is par, one(ch)) for lab, ch in par.children.items()]))
     except Exception as e:  # noqa: BLE001
         return f"broken:{type(e).__name__}"
     return repr(s)
+
+
+def _kids_attached(f, parent, before_ids):
+    """are the loading node's children / its place in the parent still what they were (object for object)"""
+    try:
+        if _is_graph(f):
+            now = [(lab, id(ch)) for lab, ch in f.children.items()]
+            if now != before_ids["kids"] or any(ch.parent is not f for ch in f.children.values()):
+                return 0
+        if parent is not None and (f.parent is not parent or parent.children.get(f.label) is not f):
+            return 0
+    except Exception:  # noqa: BLE001
+        return 0
+    return 1
 
 
 def _file_state(path, kind, expected_cls=None):
@@ -830,7 +945,7 @@ def _fs_obs(store, kind):
     return d
 
 
-def _load_into(node, store, by_name=False):
+def _load_into(node, store, by_name=False, **more):
     """(result token, exception name); `by_name`: address the store by file name (a foreign node has another
     default location)"""
     kw = store.kw
@@ -838,6 +953,7 @@ def _load_into(node, store, by_name=False):
         kw = {"filename": f"{store.root.name}/{store.base}"}
         if store.backend is not None:
             kw["backend"] = store.backend
+    kw = {**kw, **more}
     try:
         node.load(**kw)
     except FileNotFoundError:
@@ -884,10 +1000,18 @@ def _probe(kind, store):
         has = f"raised:{type(e).__name__}"
     tok, exc = _load_into(fresh, store)
     _n, atok, aexc = _reopen(kind, store)
-    return {"load": tok, "load_exc": exc, "auto": atok, "auto_exc": aexc, "has": has}
+    # the same questions with the PER-CALL flag cloudpickle_fallback=False (the back end's default stays True)
+    try:
+        hasnf = 1 if _mk_graph(kind).has_saved_content(cloudpickle_fallback=False, **store.kw) else 0
+    except Exception as e:  # noqa: BLE001
+        hasnf = f"raised:{type(e).__name__}"
+    nf, nf_exc = _load_into(_mk_graph(kind), store, cloudpickle_fallback=False)
+    return {"load": tok, "load_exc": exc, "auto": atok, "auto_exc": aexc, "has": has, "hasnf": hasnf, "nf": nf,
+            "nf_exc": nf_exc}
 
 
-def _fmt(res, fs, has, ver, steps):
+def _fmt(res, fs, pr, ver, steps, kids=""):
+    has = f"{pr['has']} hasnf={pr['hasnf']} nf={pr['nf']}{kids}"
     line = (f"{res} | dir={fs['dir']} pckl={fs['pckl']} cpckl={fs['cpckl']} pt={fs['pt']} ct={fs['ct']}"
             f" | rec={','.join(fs['rec'])} | a={fs['a'][0]}:{','.join(fs['a'][1:])}"
             f" | b={fs['b'][0]}:{','.join(fs['b'][1:])}"
@@ -931,7 +1055,12 @@ def _valid(op, kind="wf", fname="default"):
             return op[1] in CHILDREN and _flat_valid(rest)
         return _flat_valid([{"ckpt": "save", "fail": "save", "ckptcrash": "crash", "failcrash": "crash"}[op[0]], *op[1:]])
     if op[0] == "foreign":
-        return len(op) == 2 and op[1] in RELS.get(kind, ())
+        if len(op) not in (2, 3) or op[1] not in RELS.get(kind, ()):
+            return False
+        return len(op) == 2 or (op[2] in PLACEMENTS and _can_place(kind, op[1], op[2]))
+    if op[0] in ("savenf", "crashnf"):
+        # a save asked for with the per-call flag cloudpickle_fallback=False
+        return _flat_valid([op[0][:-2], *op[1:]])
     if op[0] == "save":
         return len(op) == 3 and op[1] in CONTENTS and isinstance(op[2], int)
     if op[0] == "crash":
@@ -1090,16 +1219,32 @@ def run_impl(case):
         elif op[0] == "reopen":
             node, res, exc = _reopen(kind, store)
             rec["exc"] = exc
+        elif op[0] == "savenf":
+            _set(node, op[2], op[1])
+            steps, outs, exc = complete(lambda: node.save(cloudpickle_fallback=False, **store.kw))
+            res = "saveRaised" if exc else "saved"
+            rec["exc"] = exc
+        elif op[0] == "crashnf":
+            _set(node, op[2], op[1])
+            steps = interrupted(lambda: node.save(cloudpickle_fallback=False, **store.kw), op[3], op[4], rec)
+            node = _mk_graph(kind)
+            res = "crashed"
         elif op[0] == "foreign":
-            f = _mk_foreign(kind, op[1])
+            placement = op[2] if len(op) == 3 else "alone"
+            f, f_parent = _mk_foreign(kind, op[1], placement)
             f_cls = type(f)
+            ids = {"kids": [(lab, id(ch)) for lab, ch in f.children.items()] if _is_graph(f) else []}
             before = _summary(f)
             tok, exc = _load_into(f, store, by_name=True)
             rec["exc"] = exc
             rec["unchanged"] = _summary(f) == before
+            rec["kids"] = 1 if tok.startswith("loaded") else _kids_attached(f, f_parent, ids)
+            rec["composite"] = bool(_is_graph(f)) or f_parent is not None
             rec["foreign_res"] = tok
             # the relation Python itself reports between the two real classes (must be the one asked for)
             rec["rel"] = _relation(_graph_class(kind), f_cls)
+            if op[1] == "diffcomp" and rec["rel"] == "diffname":
+                rec["rel"] = "diffcomp"
             fid = REL_ID[op[1]] if (rec["rel"] == op[1] and type(f) is f_cls) else 9
             res = f"{tok} foreign={fid}:{_ver(f)}"
         elif op[0] == "at":
@@ -1151,9 +1296,11 @@ def run_impl(case):
                 probe[which], probe[which + "_exc"] = _store_probe(kind, store, which)
         rec.update(res=res, fs=fs, ver=_ver(node), steps=steps, probe=probe)
         recs.append(rec)
-        obs.append(_fmt(res, fs, probe["has"], rec["ver"], steps))
+        obs.append(_fmt(res, fs, probe, rec["ver"], steps, f" kids={rec['kids']}" if "kids" in rec else ""))
         name = op[0] if op[0] != "at" else f"at:{op[1]}:{op[2]}"
-        bump("op:" + name + (":" + op[1] if op[0] in ("save", "crash", "foreign", "ckpt", "ckptcrash", "fail", "failcrash") else ""))
+        bump("op:" + name + (":" + op[1] if op[0] in ("save", "crash", "savenf", "crashnf", "foreign", "ckpt", "ckptcrash",
+                                                     "fail", "failcrash") else "")
+             + (":in" if op[0] == "foreign" and len(op) == 3 and op[2] == "in" else ""))
         bump(f"state:{'final' if any(fs[x] != 'absent' for x in ('pckl', 'cpckl')) else 'nofinal'}"
              f"+{'leftover' if any(fs[x] != 'absent' for x in ('pt', 'ct')) else 'clean'}")
         if all(fs[x] != "absent" for x in ("pckl", "cpckl")):
@@ -1200,7 +1347,12 @@ def model_input(case, impl=None):
                 op = [*op, FOREIGN_VER]
             lines.append(" ".join(map(str, op)) if raw else "malformed")
             continue
-        if op[0] in ("save", "crash"):
+        if op[0] in ("savenf", "crashnf"):
+            # per-call cloudpickle_fallback=False: a class that cannot be imported is refused before anything is opened;
+            # otherwise only the pickle attack is made
+            c = "nfni" if kind in BY_VALUE else ("ok" if op[1] == "ok" else "nfpf")
+            lines.append(f"save {c} {op[2]}" if op[0] == "savenf" else f"crash {c} {op[2]} {op[3]}")
+        elif op[0] in ("save", "crash"):
             # a node whose class comes out of a factory function can only be cloudpickled
             c = "pf" if (kind in BY_VALUE and op[1] == "ok") else op[1]
             if op[0] == "save":
@@ -1208,7 +1360,7 @@ def model_input(case, impl=None):
             else:
                 lines.append(f"crash {c} {op[2]} {op[3]}")  # the byte selector does not exist in the model
         elif op[0] == "foreign":
-            lines.append(f"foreign {op[1]} {FOREIGN_VER}")
+            lines.append(f"foreign {'diffname' if op[1] == 'diffcomp' else op[1]} {FOREIGN_VER}")
         else:
             lines.append(op[0])
     return lines
@@ -1343,15 +1495,19 @@ def oracle(case, r):
         cut = rec.get("cut_after", "")
         target = rec.get("store", "main")
         flat = op[2:] if op[0] == "at" else op
-        kindop = {"ckpt": "save", "fail": "save", "ckptcrash": "crash", "failcrash": "crash"}.get(flat[0], flat[0])
+        kindop = {"ckpt": "save", "fail": "save", "ckptcrash": "crash", "failcrash": "crash", "savenf": "save",
+                  "crashnf": "crash"}.get(flat[0], flat[0])
         first_save = (rec.get("saves") or [res])[0] if op[0] in ("ckpt", "fail") else res
         trig = {"save": "save" if first_save == "saved" else "save-failed", "crash": "crash"}.get(kindop, kindop)
         if op[0] in ("ckpt", "ckptcrash", "fail", "failcrash"):
             trig = {"save": op[0], "save-failed": op[0] + "-failed", "crash": op[0]}[trig]
+        elif op[0] in ("savenf", "crashnf"):
+            trig += "-nofallback"
         completed = kindop == "save" and first_save == "saved"
         if completed:
             prom[target] = {"exp": flat[2], "inf": set()}
-        elif kindop == "crash" and flat[1] != "bf":
+        elif kindop == "crash" and (flat[1] != "bf" if op[0] != "crashnf"
+                                    else (flat[1] == "ok" and case["graph"] not in BY_VALUE)):
             prom[target]["inf"].add(flat[2])
         elif kindop == "delete":
             prom[target] = {"exp": None, "inf": set()}
@@ -1446,7 +1602,10 @@ def oracle(case, r):
                        f"a node whose class is `{op[1]}` w.r.t. the saved class loaded the file: {res}; "
                        f"node unchanged: {rec['unchanged']}", rel=op[1]))
             elif not rec["unchanged"]:
-                add(_f("class-check", "foreign", "altered", k, op, f"refused ({tok}) but the node changed", rel=op[1]))
+                add(_f("class-check", "foreign", "altered" if rec.get("kids", 1) else "children-orphaned", k, op,
+                       f"refused ({tok}) but the loading node is not what it was"
+                       + ("" if rec.get("kids", 1) else ": its children are no longer its children / it lost its place in its parent"),
+                       rel=op[1], placement=op[2] if len(op) == 3 else "alone"))
         # the live node's own load agrees with what was promised and does not corrupt it when refused
         if op[0] == "load":
             expected, inflight = prom["main"]["exp"], prom["main"]["inf"]
@@ -1473,10 +1632,12 @@ def shrink_candidates(case):
     if case.get("backend") == "custom":
         yield {k: v for k, v in case.items() if k != "backend"}
     for i, op in enumerate(ops):
-        if op and op[0] in ("crash", "ckptcrash", "failcrash") and len(op) == 5 and op[3] > 0:
+        if op and op[0] in ("crash", "crashnf", "ckptcrash", "failcrash") and len(op) == 5 and op[3] > 0:
             yield {**case, "ops": ops[:i] + [[*op[:3], op[3] - 1, op[4]]] + ops[i + 1:]}
         if op and op[0] == "at" and len(op) == 7 and op[2] == "crash" and op[5] > 0:
             yield {**case, "ops": ops[:i] + [[*op[:5], op[5] - 1, op[6]]] + ops[i + 1:]}
+        if op and op[0] == "foreign" and len(op) == 3:
+            yield {**case, "ops": ops[:i] + [op[:2]] + ops[i + 1:]}
         if op and op[0] == "at" and op[1] == "b":
             yield {**case, "ops": ops[:i] + [["at", "a", *op[2:]]] + ops[i + 1:]}
 
@@ -1486,14 +1647,19 @@ def shrink_candidates(case):
 
 def extended_search(rng, findings):
     """Run when the correspondence or a proof is broken and the ordinary cases showed no violation of the property:
-    EVERY history of length <= 3 over the whole alphabet (each kind of save cut at every file-system call, load,
-    delete, auto-load, every class relation), oracle after every op.  Returns the smallest failing input that is not
-    a listed finding, or None."""
+    short histories over the WHOLE alphabet (each kind of save -- default and per-call no-fallback -- cut at every
+    file-system call, load, delete, auto-load, every class relation and placement, the nested stores), oracle after every
+    op, most telling first: pairs that start by writing something, per graph kind; the tree pairs; then length 3.
+    Stops at the first chunk with a failing input and at a wall-clock budget (quick: 120 s, thorough: 900 s; env
+    PWH_EXT_BUDGET).  Returns the smallest failing input that is not a listed finding, or None."""
     import sys
+    import time
 
     from . import core, engine
 
     mod = sys.modules[__name__]
+    budget = float(os.environ.get("PWH_EXT_BUDGET", 900 if "thorough" in sys.argv else 120))
+    deadline = time.time() + budget
 
     def first_failure(cases):
         best = None
@@ -1512,7 +1678,7 @@ def extended_search(rng, findings):
 
     def report(best):
         _size, c, f, r = best
-        small = engine.shrink(mod, c, f["clause"])
+        small = engine.shrink(mod, c, f["clause"], budget=25)
         if small is not c:
             impl = core.run_impl_cases(__name__, [small], workers=1)[0]
             ff = next((x for x in oracle(small, impl) if x["clause"] == f["clause"]), None)
@@ -1521,55 +1687,29 @@ def extended_search(rng, findings):
         return core.Failure("oracle-failure", c, f["clause"], f.get("detail", ""), f.get("signature", {}),
                             r.get("obs", []), [])
 
-    # stage 1: length <= 2, every graph kind, default name (+ Workflow with an explicit name)
-    stage1 = []
-    for g, fn in [(g, "default") for g in GRAPHS] + [("wf", "explicit")]:  # wf, fn, fac, old
-        al = _alphabet(g)
-        for a in al:
-            for b in al:
-                stage1.append(_case(g, fn, _number([a, b])))  # the probes after op 1 cover the length-1 history
-    best = first_failure(stage1)
-    if best is not None:
-        return report(best)
-    # stage 2: length 3 on the Workflow graph; cuts beyond the last file-system call of a save are all the same
-    # (measured on the implementation, not taken from the model)
-    probe = [_case("wf", "default", _number([["crash", c, MAXK]])) for c in CONTENTS]
-    maxk = {}
-    for c, r in zip(CONTENTS, core.run_impl_cases(__name__, probe, workers=1)):
-        n = len((r.get("recs") or [{}])[0].get("steps") or [])
-        maxk[c] = min(MAXK, n + 1) if n else MAXK
-    al = _alphabet("wf", maxk)
-    chunk = []
-    for a in al:
-        for b in al:
-            for c in al:
-                chunk.append(_case("wf", "default", _number([a, b, c])))
-        if len(chunk) >= 6000:
-            best = first_failure(chunk)
+    def stages():
+        writes = ("save", "crash", "savenf", "crashnf")
+        # cuts beyond the last file-system call of a save are all the same (measured on the implementation)
+        probe = [_case("wf", "default", _number([["crash", c, MAXK]])) for c in CONTENTS]
+        maxk = {}
+        for c, r in zip(CONTENTS, core.run_impl_cases(__name__, probe, workers=1)):
+            n = len((r.get("recs") or [{}])[0].get("steps") or [])
+            maxk[c] = min(MAXK, n + 1) if n else MAXK
+        for g, fn in [(g, "default") for g in GRAPHS] + [("wf", "explicit")]:
+            al = _alphabet(g, maxk) + _nf_alphabet(maxk)
+            yield [_case(g, fn, _number([a, b])) for a in al if a[0] in writes for b in al]
+        both = _tree_alphabet() + _alphabet("wf", maxk)
+        yield [_case("wf", "default", _number([a, b])) for a in both for b in both if _is_tree_op(a) or _is_tree_op(b)]
+        for g in GRAPHS:
+            al = _alphabet(g, maxk) + _nf_alphabet(maxk)
+            yield [_case(g, "default", _number([a, b, c])) for a in al if a[0] in writes for b in al for c in al]
+
+    for stage in stages():
+        for i in range(0, len(stage), 2000):
+            if time.time() > deadline:
+                sys.stderr.write(f"[extended-search] budget of {budget:.0f} s used up, nothing found so far\n")
+                return None
+            best = first_failure(stage[i:i + 2000])
             if best is not None:
                 return report(best)
-            chunk = []
-    if chunk:
-        best = first_failure(chunk)
-        if best is not None:
-            return report(best)
-    # stage 3: nested nodes / checkpoints / recovery files: every pair over the whole tree alphabet
-    both = _tree_alphabet() + _alphabet("wf")
-    stage3 = [_case("wf", "default", _number([a, b])) for a in both for b in both if _is_tree_op(a) or _is_tree_op(b)]
-    best = first_failure(stage3)
-    if best is not None:
-        return report(best)
-    # stage 4: length 3 for the other graph kinds (importable function node, factory-made class, re-defined class)
-    for g in GRAPHS[1:]:
-        al = _alphabet(g, maxk)
-        chunk = []
-        for a in al:
-            if a[0] not in ("save", "crash"):
-                continue  # a history that matters starts by writing something
-            for b in al:
-                for c in al:
-                    chunk.append(_case(g, "default", _number([a, b, c])))
-        best = first_failure(chunk)
-        if best is not None:
-            return report(best)
     return None
